@@ -4,6 +4,7 @@
 //!   vcheck replay <file>
 //! Exit codes: 0 held (known findings only), 1 violation, 2 inconclusive / infrastructure.
 
+mod audit;
 mod dbx;
 mod engine;
 mod panics;
